@@ -1,12 +1,12 @@
 SPECIFICATION MCSpec
 CONSTANTS
   Relax = {}
-  Mode = "honest"
+  Mode = "revoked"
   MaxBlocks = 2
-  Layouts = {"plain"}
+  Layouts = {"plain", "fee_after", "fee_after_change", "fee_before", "fee_between", "extra_out", "two_fees"}
   MaxUnwind = 0
   Defect = "none"
-  MaxReload = 1
+  MaxReload = 0
 CONSTRAINT Bounded
 VIEW View
 INVARIANT TypeOK
